@@ -14,6 +14,7 @@ pub mod c11;
 pub mod c14;
 pub mod c15;
 pub mod c16;
+pub mod c17;
 
 pub fn run(id: &str, eng: &Engine) {
     match id {
@@ -30,6 +31,7 @@ pub fn run(id: &str, eng: &Engine) {
         "C14" => c14::run(eng),
         "C15" => c15::run(eng),
         "C16" => c16::run(eng),
+        "C17" => c17::run(eng),
         _ => {
             println!("INCONCLUSIVE unknown property {id}");
             std::process::exit(2);
@@ -52,6 +54,7 @@ pub fn replay(id: &str, eng: &Engine, stage: &str, case: &Value) -> CaseResult {
         "C14" => c14::replay(eng, stage, case),
         "C15" => c15::replay(eng, stage, case),
         "C16" => c16::replay(eng, stage, case),
+        "C17" => c17::replay(eng, stage, case),
         _ => Err(Failure::new("machinery", format!("unknown property {id}"))),
     }
 }
